@@ -230,3 +230,8 @@ CHECKS["C05"].update(
     technique=CHECKS["C05"]["technique"] + "; native sweep of truncated / mutated inputs through the file, data set and PDU readers (stand-in)",
     note=CHECKS["C05"]["note"] + " File, data set (eager, lazy) and whole-PDU readers are exercised only by the native unit C05.hostile "
          "(truncations and single-byte mutations of small inputs; bounded, never counted as proved).")
+CHECKS["C11"].update(
+    technique=CHECKS["C11"]["technique"] + "; native enumeration of the textual conversions and edits (stand-in)",
+    note=CHECKS["C11"]["note"].replace("Textual numbers, extend_str and numbers appended to textual values are uncovered.",
+                                        "Textual numbers, extend_str and numbers appended to textual values are covered only by the native unit C11.text "
+                                        "(bounded, never counted as proved)."))
